@@ -63,6 +63,18 @@ class JacWorld(World):
             d.unhook_jacobian_call()
             # model: the user Jacobian is detached; an rhs that itself carries .jac is picked up again on the next request
             self.attached = "attr" if "attr" in self.jac_peers and getattr(self.rhs, "jac", None) is not None else None
+        elif k in ("copy", "deepcopy", "into_system"):
+            # the wrapper is copied (OdeSystem copies a DiffRHS it is given); the attached Jacobian must survive
+            import copy as _copy
+            import desolver as de
+            if k == "copy":
+                self.diff = _copy.copy(d)
+            elif k == "deepcopy":
+                # simulated peers hold a reference to the world: deep-copying them is not meaningful, copy the wrapper shallowly
+                self.diff = d.__copy__()
+            else:
+                sysm = de.OdeSystem(d, self.problem.y0(), t=(0.0, 1.0), dt=0.1, constants=dict(consts))
+                self.diff = sysm.equ_rhs
         elif k == "call":
             t = np.asarray(op["t"], dtype=dtype)
             y = np.asarray(op["y"], dtype=dtype).reshape(self.problem.shape)
@@ -134,7 +146,7 @@ class C16(Prop):
     quick = {"seeds": 3000, "wall_cap": 90, "chunk": 16}
     thorough = {"seeds": 60000, "wall_cap": 1500, "chunk": 32}
     rule = ("one case = one seeded history of 3-12 ops on a DiffRHS wrapper {jac(t,y) at seeded points with repeated and changing t, hook_jacobian_call(J_i), "
-            "unhook_jacobian_call(), rhs.jac = J_i, construction from an rhs that itself carries .jac, plain rhs calls, and the finite-difference wrapper itself on seeded non-square / multi-dimensional maps R^n -> R^m with base orders 2-7} with optional rhs faults raised "
+            "unhook_jacobian_call(), rhs.jac = J_i, construction from an rhs that itself carries .jac, plain rhs calls, copying the wrapper (copy.copy / handing it to an OdeSystem, which copies it), and the finite-difference wrapper itself on seeded non-square / multi-dimensional maps R^n -> R^m with base orders 2-7} with optional rhs faults raised "
             "DURING a finite-difference evaluation; programs are random smooth (deliberately non-symmetric Jacobians, multi-dimensional states), linear "
             "ones included.  The same wrapper is also exercised in situ by every implicit integration of C02/C12/C20.  Non-trivial = at least two jac "
             "requests were answered; distinct = distinct canonical scenario JSON")
@@ -174,8 +186,10 @@ class C16(Prop):
                 ops.append({"op": "assign", "tag": "J%d" % tag})
             elif x < 0.92:
                 ops.append({"op": "unhook"})
-            elif x < 0.96:
+            elif x < 0.94:
                 ops.append({"op": "call", "t": gen.rnd(r, -5, 5, 3), "y": [gen.rnd(r, -1, 1, 3) for _ in range(N)]})
+            elif x < 0.975:
+                ops.append({"op": r.choice(["copy", "into_system", "into_system"])})
             else:
                 ish = r.choice([[1], [2], [3], [4], [2, 2], [3, 2]])
                 osh = r.choice([[1], [2], [3], [5], [2, 3], [2, 1, 2]])
